@@ -31,7 +31,8 @@ REQUIRE = {
                  "value alongside gradient/Hessian == stand-alone value": 10, "gradient independent of batch size": 8,
                  "Hessian-vector product == H@p": 1, "transformed coordinates: gradient": 3, "transformed coordinates: Hessian": 1,
                  "CombineFCN: value/gradient alongside Hessian == stand-alone": 2, "CombineFCN: Hessian == d grad/dx (directional FD)": 1},
-    "cover": {"model": ["default", "extended", "cfit", "cfit_cached", "cfit_extended", "cached_int", "cached_amp", "simple", "simple_cfit"]},
+    "cover": {"model": ["default", "extended", "cfit", "cfit_cached", "cfit_extended", "cached_int", "cached_amp", "simple", "simple_cfit"],
+              "hessian_model": ["default", "extended", "cfit", "cfit_cached", "cfit_extended", "cached_int", "cached_amp", "simple", "simple_cfit"]},
     "min_nontrivial": {"quick": 8, "thorough": 200},
 }
 LEVEL_TEXT = ("Differential runtime monitor: gradients, Hessians and Hessian-vector products returned by FCN / CombineFCN and by the bound "
@@ -119,7 +120,7 @@ def run(ctx):
             continue
         cfit = kind == "cfit"
         n, nmc = 83, 160
-        rot = i + i // len(MODEL_NAMES)  # de-aliased case counter: conditions on it rotate over the models from round to round
+        rot = i % len(MODEL_NAMES) + i // len(MODEL_NAMES)  # model index + round: conditions on it rotate over the models from round to round, whatever the number of models
         data = lik.make_sample(cfg, card, n, rng, "positive" if rot % 2 else "ones", cfit=cfit)
         phsp = lik.make_sample(cfg, card, nmc, rng, ["ones", "positive", "mixed_mild"][i % 3], cfit=cfit)
         bg = None if cfit else lik.make_sample(cfg, card, 17, rng, "ones")
@@ -191,7 +192,7 @@ def run(ctx):
         except Exception as e:
             ctx.violation("gradient independent of batch size", ctx.exc_witness(e, **desc()), mechanism="nll_grad raises with another batch size (%s)" % model)
         # (b) Hessian vs FD of the library gradient
-        do_hess = (i // len(MODEL_NAMES) + i) % 2 == 0 or ctx.tier == "thorough"  # every model gets a Hessian case within 16 cases
+        do_hess = rot % 2 == 0 or ctx.tier == "thorough"  # every model gets a Hessian case within two rounds of the model rotation
         H = None
         if do_hess:
             try:
